@@ -14,35 +14,26 @@ def job(pkg, run, tests, checks, shards=1, timeout=600, **kw):
     return d
 
 
-PROPS = {}
 
-PROPS["C06"] = dict(
-    level="exploration",
-    rule=("(a) shachain: rapid draws a seed and either inserts secrets 0..N-1 "
-          "sequentially (every insert = one evaluation; full scan + serialisation "
-          "round trip at powers of two) or crafts the store state after n prior "
-          "insertions for a structured bit pattern n in [0,2^48] and inserts an "
-          "honest / bit-flipped / foreign-root / out-of-order secret, then looks up "
-          "generated earlier indices against an independent BOLT-3 derivation. "
-          "Non-trivial = the inserted index has >=2 trailing zeros (>=2 lower "
-          "buckets verified and superseded) or the secret was corrupted. Distinct "
-          "= distinct (seed, index, mode)."),
-    assumptions=[
-        "SHA-256 collisions do not occur (a corrupted secret that still derives the stored lower buckets is treated as impossible)",
-        "crafted store states (white-box construction of the bucket array) are validated against real sequential insertion only for n <= N of the exhaustive part",
-    ],
-    jobs=dict(
-        quick=[
-            job("shachain", "^TestVerifC06Exhaustive$", ["TestVerifC06Exhaustive"], 3, shards=2,
-                env=dict(VERIF_C06_N=4096)),
-            job("shachain", "^TestVerifC06Structural$", ["TestVerifC06Structural"], 4000, shards=4),
-        ],
-        thorough=[
-            job("shachain", "^TestVerifC06Exhaustive$", ["TestVerifC06Exhaustive"], 2, shards=8,
-                env=dict(VERIF_C06_N=65536), timeout=1500),
-            job("shachain", "^TestVerifC06Structural$", ["TestVerifC06Structural"], 60000, shards=16,
-                timeout=1500),
-        ],
-    ),
-)
+
+import glob as _glob
+import os as _os
+import runpy as _runpy
+
+PROPS = {}
+# Properties that are deliberately not claimed: id -> one-line reason.
 NOT_CLAIMED = {}
+
+
+def _load():
+    here = _os.path.dirname(_os.path.abspath(__file__))
+    for f in sorted(_glob.glob(_os.path.join(here, "props.d", "C*.py"))):
+        pid = _os.path.basename(f)[:-3]
+        ns = _runpy.run_path(f)
+        if "PROP" in ns:
+            PROPS[pid] = ns["PROP"]
+        if "NOT_CLAIMED" in ns:
+            NOT_CLAIMED[pid] = ns["NOT_CLAIMED"]
+
+
+_load()
